@@ -1,2 +1,3 @@
 import HopModel.Props.C14
 import HopModel.Props.C20
+import HopModel.Props.C17
